@@ -591,8 +591,10 @@ Record tsval := TsVal { ts_y : N; ts_mo : N; ts_d : N; ts_h : N; ts_mi : N; ts_s
 (* ts_us: the six digits of datetime.microsecond *)
 
 (* a Python float that came from  [+-]?[0-9]*.[0-9]+ : sign, integer digits
-   without leading zeros, fraction digits without trailing zeros.  Exact for
-   texts of at most 15 significant digits (see float_exact).               *)
+   without leading zeros, fraction digits without trailing zeros.  Every digit
+   is kept, which float() does only for at most 15 significant digits in the
+   normal range: Spec/PatternSpec.v `fshort`, a conjunct of `sem` and of
+   `aprint`, so the theorems are silent about longer floats.               *)
 Record fval := FVal { f_neg : bool; f_ip : list N; f_fp : list N }.
 
 Inductive aconst :=
